@@ -295,9 +295,12 @@ impl Axecutor {
                 );
             }
 
-            // If the argument is 0, we just return the current brk_start
+            // If the argument is 0, we just return the current program break
             if brk == 0 {
-                ax.reg_write_64(RAX, ax.state.syscalls.brk_start)?;
+                ax.reg_write_64(
+                    RAX,
+                    ax.state.syscalls.brk_start + ax.state.syscalls.brk_length,
+                )?;
                 return Ok(HookResult::Handled);
             }
 
